@@ -81,24 +81,16 @@ type extractor struct {
 	CacheUsesResolved int
 }
 
-// loadOverlay: only MUTATED files (killdemo's VERIF_EXTRA_OVERLAY list) replace the repository source for the
-// analysis; the base overlay (harmony build stubs, injected accessors) is deliberately ignored so that the real
-// harmony router source is analysed too.
-func loadOverlay() map[string]string {
+// loadOverlay takes the build overlay as seen by lib/src (so killdemo mutants are what gets analysed) but drops
+// the entries of the harness itself (build stubs / injected accessors living under /verif/engine): the real
+// harmony router source — stubbed out of the build because libbls is absent — is analysed as well.
+func loadOverlay(repl map[string]string) map[string]string {
 	out := map[string]string{}
-	p := os.Getenv("VERIF_EXTRA_OVERLAY")
-	if p == "" {
-		return out
-	}
-	b, err := os.ReadFile(p)
-	if err != nil {
-		return out
-	}
-	for _, ln := range strings.Split(string(b), "\n") {
-		f := strings.Split(ln, "\t")
-		if len(f) == 2 && strings.TrimSpace(f[0]) != "" {
-			out[filepath.Join(repoRoot, strings.TrimSpace(f[0]))] = strings.TrimSpace(f[1])
+	for k, v := range repl {
+		if v == "" || strings.HasPrefix(v, "/verif/engine/") {
+			continue
 		}
+		out[k] = v
 	}
 	return out
 }
